@@ -501,9 +501,18 @@ def decorate(spec: dict, rng: random.Random) -> dict:
     cands = [i for i, st in enumerate(stages) if st.get("tasks")]
     if cands and rng.random() < 0.6:
         i = rng.choice(cands)
-        j = rng.randint(0, i)
+        # a loop: the target is the stage itself or one of its (transitive) requisites - a jump onto an unrelated parallel
+        # branch makes the outcome depend on the delivery order by construction
+        anc, todo = set(), list(stages[i].get("reqs", []))
+        byref = {st["ref"]: st for st in stages}
+        while todo:
+            r = todo.pop()
+            if r not in anc and r in byref:
+                anc.add(r)
+                todo += byref[r].get("reqs", [])
+        target = rng.choice(sorted(anc) + [stages[i]["ref"]])
         t = rng.randrange(len(stages[i]["tasks"]))
-        stages[i]["tasks"][t] = ["jump:S%d" % j, "ok"]
+        stages[i]["tasks"][t] = ["jump:" + target, "ok"]
     return spec
 
 
@@ -939,7 +948,11 @@ def monitor(pid: str, out: dict, base: dict | None) -> list[Violation]:
     if pid == "C02" and crashfree:
         vs += M.m_c02(out)
         if base is not None:
-            vs += M.m_outcome(out, base, "reordered/redelivered", exec_slack={})
+            # execution COUNTS are comparable with the in-order run only without jumps: a loop re-runs whatever part of a
+            # parallel branch had already run when the jump was handled, which depends on the order by design (the
+            # per-iteration rules of m_c02 above do apply)
+            jumps = any(str(step).startswith("jump") for sp in M.spec_map(out).values() for steps in sp.get("tasks", []) for step in steps)
+            vs += M.m_outcome(out, base, "reordered/redelivered", exec_slack=(None if jumps else {}))
     if pid == "C03":
         vs += M.m_c03(out)
     if pid == "C11":
